@@ -5,7 +5,7 @@
    eigh of the EX-space propagator, the purification identities (dense oracle), norms as real square roots. *)
 From Coq Require Import QArith ZArith List Arith Bool Qcanon.
 Import ListNotations.
-From RV Require Import Base.CRing Base.BigSum Gen.RkTableaux Gen.EvolveExact Model.Rk Model.Chain Model.Env Model.Prop Proofs.EnvProofs Proofs.PropProofs.
+From RV Require Import Base.CRing Base.BigSum Gen.RkTableaux Gen.EvolveExact Gen.ThermalSites Model.Rk Model.Chain Model.Env Model.Prop Proofs.EnvProofs Proofs.PropProofs.
 Close Scope Q_scope.
 Close Scope Qc_scope.
 
@@ -118,6 +118,20 @@ Theorem C10_thermal_steps_compose :
   thermal_loop K V mscale (E tau) N (f :: fs) psi0 = N (E (tmul T tadd tzero (S (length fs)) tau) psi0).
 Proof. exact thermal_steps_compose. Qed.
 Print Assumptions C10_thermal_steps_compose.
+
+(* every place of the package that drives ThermalProp with a temperature (table generated by tx/thermalsites.py from all modules of
+   renormalizer/) hands  to_beta() / 2j  as the total imaginary time: the purified state is exp(-beta H / 2)|max-entangled>, so that
+   C10_purification_expectation gives averages at beta (not 2 beta) *)
+Definition site_half_beta (s : tsite) : bool := match ts_form s with BetaOver2j => true | OtherForm => false end.
+Theorem C10_thermal_sites_half_beta : forall s, In s thermal_sites -> ts_form s = BetaOver2j.
+Proof.
+  exact (fun s Hs => match ts_form s as f return (match f with BetaOver2j => true | OtherForm => false end = true -> f = BetaOver2j) with
+                     | BetaOver2j => fun _ => eq_refl | OtherForm => fun E => match Bool.diff_false_true E with end end
+                     (proj1 (forallb_forall site_half_beta thermal_sites) eq_refl s Hs)).
+Qed.
+Print Assumptions C10_thermal_sites_half_beta.
+Example C10_thermal_sites_nonempty : 8 <= length thermal_sites.
+Proof. vm_compute. repeat constructor. Qed.
 
 (* ================================================================== purified density operators ========= *)
 (* dense(MpDm.from_mps(psi))[s, s'] = [s = s'] psi(s), for every chain (any bond dimensions) *)
